@@ -141,6 +141,17 @@ func init() {
 		return out
 	}
 
+	// the random (mixed) scenarios of c09 again, for the run under the Go race detector (observation channel of C09's race clause)
+	scenarioFamilies["c09race"] = func(tier string, rng *rand.Rand) []scenarioSet {
+		var out []scenarioSet
+		for _, set := range scenarioFamilies["c09"]("quick", rng) {
+			if set.mode == "random" {
+				set.maxExec = 150
+				out = append(out, set)
+			}
+		}
+		return out
+	}
 	scenarioFamilies["c10"] = func(tier string, rng *rand.Rand) []scenarioSet {
 		var out []scenarioSet
 		thorough := tier == "thorough"
